@@ -46,7 +46,8 @@ class Lock:
 
 # table name of `extract` -> the generated Lean modules under Zrnt/Gen it writes
 GEN_TABLE_MODULES = {"configs": ["Configs"], "faultsites": ["FaultSites"], "lockfacts": ["LockFacts", "LockFactsOk"],
-                     "sszfacts": ["SszFacts"], "sszcodec": ["SszCodec"], "sszroot": ["SszRoot"], "ssztags": ["SszTags"], "statefacts": ["StateFacts"]}
+                     "sszfacts": ["SszFacts"], "sszcodec": ["SszCodec"], "sszroot": ["SszRoot"], "ssztags": ["SszTags"], "statefacts": ["StateFacts"],
+                     "blocklimits": ["BlockLimits"]}
 
 
 def regen_items_in_cone(cone_files):
